@@ -29,6 +29,8 @@ pub struct KeyState {
     pub releases: Vec<Release>,
     pub prv_corrupted: bool,
     pub lifetime_seen: Option<u64>,
+    /// highest counter a signature was released for since the ledger entries of this key were last reset
+    pub ledger_high: Option<u64>,
 }
 
 pub enum Mem {
@@ -121,6 +123,7 @@ impl World {
                 releases: vec![],
                 prv_corrupted: false,
                 lifetime_seen: None,
+                ledger_high: None,
             })
             .collect();
         let procs = plan.procs.iter().map(|&k| Proc { key: k, mem: None }).collect();
@@ -392,10 +395,19 @@ impl World {
         for p in self.procs.iter_mut().filter(|p| p.key == ki) {
             p.mem = None;
         }
-        // state injection starts a new hypothetical history of this key: what earlier histories
-        // released does not count against it
-        self.ledger.retain(|k, _| k.0 != ki);
-        self.event(format!("inject k{} counter={}", ki, counter));
+        // State injection starts a new hypothetical history of this key — unless it jumps FORWARD, beyond every
+        // counter this key has released a signature for: the releases before and after such a jump are a subset
+        // of the releases of one honest history (the skipped leaves could have signed anything), so the ledger
+        // stays valid across it and two sub-trees that share one-time keys are caught even if they lie far apart.
+        let forward = matches!(self.keys[ki].ledger_high, Some(hc) if counter > hc);
+        if forward {
+            self.rep.stats.probe("forward-jump-keeps-ledger");
+        } else {
+            self.ledger.retain(|k, _| k.0 != ki);
+            self.keys[ki].ledger_high = None;
+        }
+        self.fault("counter-state-injected");
+        self.event(format!("inject k{} counter={}{}", ki, counter, if forward { " (forward jump)" } else { "" }));
         self.records.push(None);
     }
 
@@ -815,6 +827,8 @@ impl World {
         if released {
             if let (Outcome::Ok(sig), Decoded::Valid { counter, .. }) = (&outcome, &decoded) {
                 self.keys[ki].releases.push(Release { counter: *counter, msg: message, sig: sig.clone(), by_hashsigs: false });
+                let hi = self.keys[ki].ledger_high.map_or(*counter, |h| h.max(*counter));
+                self.keys[ki].ledger_high = Some(hi);
             }
         }
         self.state_probe(ki);
